@@ -74,7 +74,7 @@ def catalog():
 def write_replay(path, case, inputs):
     with open(path, 'w') as f:
         for k, v in sorted(case.get('cfg', {}).items(), key=lambda kv: int(kv[0])):
-            f.write('cfg %d %s\n' % (int(k), v))
+            f.write('cfg %d %s\n' % (int(k), v.replace('\\', '\\\\').replace('\n', '\\n')))
         for k, v in sorted(inputs.items()):
             if k[0] == 'f': f.write('f64 %d 0x%016x\n' % (int(k[1:]), v))
             else: f.write('u64 %d %d\n' % (int(k[1:]), v))
@@ -278,7 +278,7 @@ def main():
     limits = getattr(prop, 'LIMITS', {})
     too_soft = len(soft) > limits.get('max_unsupported', 0)
     too_undec = undec > limits.get('max_undecided_frac', 0.2) * max(1, totals['asserts_checked'] + totals['paths'])
-    for p in (hard + soft)[:30]: log('PROBLEM %s' % (p,))
+    for p in (hard + soft)[:30]: log('PROBLEM %s' % (str(p)[:600],))
 
     wall = time.time() - t_start
     level = getattr(prop, 'LEVEL', 'model_checking')
